@@ -282,7 +282,7 @@ theorem srStep_stored (opt : Opt) (hin : opt.inner = true) (ks kn : List Nat) (s
     have : ¬ st.i > kn.length := by omega
     simp only [srStep, this, if_false]
   · try rw [if_pos hin]
-    have hfl : ¬ st.i > kn.length := by omega
+    have hfl : ¬ st.i / 2 > kn.length / 2 := by omega
     have hplen : (storedPrefix ks st.i ws).length = ws - (st.i - st.i % 2) := by
       simp only [storedPrefix, List.length_drop, List.length_take]; omega
     have hcmp : cmpUpto (kn.drop (st.i - st.i % 2)) (storedPrefix ks st.i ws)
@@ -513,7 +513,7 @@ theorem searchLoop_exact {keys : List Bytes} {keep : List Bool} {t : Trie1}
           obtain ⟨hsubc, _, hnodec⟩ := h.at hc'
           have hch : leftChildID r (labelIdxOfKey kn ws r.big)
               = ((r.firstChild : Int) - 1 + k, true) := by
-            rw [labelIdxOfKey_eq_labelAt, ← hkl, leftChildID_of_label r F.pw k hk']
+            rw [labelIdxOfKey_eq_labelAt _ _ _ hbw, ← hkl, leftChildID_of_label r F.pw k hk']
           have hL' := left_step F st.lID k hk' c hrun hL
           have hR' := right_step F st.rID k hk' c hrun hR
           have hlabs := hrun.lab_s
@@ -603,7 +603,7 @@ theorem searchLoop_exact {keys : List Bytes} {keep : List Bool} {t : Trie1}
         · -- the label of the query is absent: the loop ends here
           have hch : leftChildID r (labelIdxOfKey kn ws r.big)
               = ((r.firstChild : Int) - 1 + rankLabels r.labels (labelAt kn ws r.big), false) := by
-            rw [labelIdxOfKey_eq_labelAt]
+            rw [labelIdxOfKey_eq_labelAt _ _ _ hbw]
             exact leftChildID_absent r _ hmem
           rw [srBranch_absent _ _ _ r st ws _ (rank_le _ _) hch]
           obtain ⟨a, hcut⟩ := mono_cut (labelOf keys ws r.big) o.s (labelAt kn ws r.big) o.e
